@@ -32,6 +32,6 @@ def initTimeGlobalWrites : List (String × String) := [
   ("github.com/koykov/inspector.init", "inspector.reVnd"),
   ("github.com/koykov/inspector.tmpIdx", "inspector.tmpCntr"),
   ("github.com/koykov/inspector/testobj_ins.init", "testobj_ins.init$guard")]
-def runtimeEntryPoints : Nat := 15782
-def functionsReachable : Nat := 15835
+def runtimeEntryPoints : Nat := 16802
+def functionsReachable : Nat := 16868
 end Inspector
